@@ -70,6 +70,9 @@ def loop_over(e, reg):
             t = t[1][1]
         return isinstance(t, tuple) and t[:2] == ("reg", reg)
     t = e.a.get("test")
+    if t == ("const", True):
+        # while True: x = R.popleft() ... except IndexError: break  - runs until the registry is empty
+        return any(x.kind == "LOOKUP" and x.a.get("reg") == reg and str(x.a.get("how", "")).endswith("-empty") for bp in e.a["body"] for x in bp.walk())
     if t is not None:
         return any(isinstance(x, tuple) and x[:2] == ("reg", reg) for x in subterms(t))
     return False
@@ -112,10 +115,15 @@ def drains(events, reg, skip_pending=False):
     for lp in loops_over(events, reg):
         ok = True
         fires = []
-        if lp.a.get("lkind") == "while" and not _emptiness_test(lp.a.get("test"), reg):
+        until_empty = lp.a.get("test") == ("const", True)
+        if lp.a.get("lkind") == "while" and not until_empty and not _emptiness_test(lp.a.get("test"), reg):
             continue       # a while loop drains the registry only if it runs until the registry is empty
         pre_ok = skip_pending is True or (skip_pending == "after-cancel" and cancels(events[:events.index(lp)], reg)[0])
         for bp in lp.a["body"]:
+            if until_empty and bp.exit_kind() == "break" and any(
+                    x.kind == "LOOKUP" and x.a.get("reg") == reg and str(x.a.get("how", "")).endswith("-empty") for x in bp.walk()) \
+                    and not any(x.kind in ("UNREG", "FIRE", "WRITE") for x in bp.walk()):
+                continue       # the exit taken when the registry is found empty
             if bp.exit_kind() not in ("fall", "continue"):
                 ok = False
                 continue
